@@ -193,6 +193,18 @@ impl<Entities> Batch<Entities> {
     pub(crate) fn len(&self) -> usize {
         self.len
     }
+
+    /// Creates a batch of `len` entities, without inspecting the columns.
+    ///
+    /// This is what allows a batch of entities made of no components at all to have a length.
+    ///
+    /// # Safety
+    /// Each column in `entities` must contain exactly `len` values.
+    #[doc(hidden)]
+    #[must_use]
+    pub unsafe fn new_unchecked_with_len(entities: Entities, len: usize) -> Self {
+        Self { entities, len }
+    }
 }
 
 /// Creates a batch of entities made from the same components.
@@ -255,6 +267,9 @@ macro_rules! entities {
             )
         }
     };
+    (() $(,$rest:tt)* $(,)?) => {
+        $crate::entities!(@units [()] $($rest),*)
+    };
     ($(($($components:expr),*)),+ $(,)?) => {
         // SAFETY: During transposition, each column is guaranteed to have an equal number of
         // components.
@@ -267,13 +282,23 @@ macro_rules! entities {
     ((); $n:expr) => {
         // SAFETY: There are no columns to check.
         unsafe {
-            $crate::entities::Batch::new_unchecked($crate::entities::Null)
+            $crate::entities::Batch::new_unchecked_with_len($crate::entities::Null, $n)
         }
     };
     () => {
         // SAFETY: There are no columns to check.
         unsafe {
             $crate::entities::Batch::new_unchecked($crate::entities::Null)
+        }
+    };
+
+    (@units [$($units:tt),*] () $(,$rest:tt)*) => {
+        $crate::entities!(@units [$($units,)* ()] $($rest),*)
+    };
+    (@units [$($units:tt),*]) => {
+        // SAFETY: There are no columns to check.
+        unsafe {
+            $crate::entities::Batch::new_unchecked_with_len($crate::entities::Null, [$($units),*].len())
         }
     };
 
